@@ -247,11 +247,53 @@ def applyRegex (cfg : Cfg) (env : Env) : List (Bool × Str) → EL → XM EL
     | .ok e' => applyRegex cfg env rs e'
     | .error r => .error r
 
-/-- the tail of `opt_args` -/
+/-- `wcoll_apply_excluded` with F02-2BR repaired: the argument is parsed, and every first-level name
+    (popped) goes through `hostlist_delete`, which expands a second pair of brackets -/
+def applyExcluded2 (cfg : Cfg) : List Str → EL → XM EL
+  | [], e => .ok e
+  | a :: as, e =>
+    match create cfg a with
+    | .null _ f => if f = Fatal.none then applyExcluded2 cfg as e else .error (.fatal "hostlist")
+    | .ub w => .error (.ub w)
+    | .diverge => .error .diverge
+    | .ok t =>
+      match popAll cfg (t.nhosts.toNat + 1) (pushListE EL.new t) with
+      | .error w => .error (.ub w)
+      | .ok names =>
+        match applyExcluded cfg names e with
+        | .ok e' => applyExcluded2 cfg as e'
+        | .error r => .error r
+
+/-- record objects for an array of ranges -/
+def numbered : Nat → List HRange → List RObj
+  | _, [] => []
+  | i, r :: rs => ⟨i, r⟩ :: numbered (i + 1) rs
+
+/-- the list object `wcoll_expand` leaves in `opt->wcoll` -/
+def ofHL (h : HL) : EL := ⟨numbered 0 h.ranges.toList, h.nhosts, h.ranges.toList.length, []⟩
+
+/-- the tail of `opt_args`, F02-2BR repaired: re-expansion first -/
+def finish2 (cfg : Cfg) (env : Env) (e : EL) (excl : List Str) (regex : List (Bool × Str)) : Res :=
+  match wcollExpand cfg e.toHL with
+  | .null _ _ => .fatal "hostlist"
+  | .ub w => .ub w
+  | .diverge => .diverge
+  | .ok h =>
+    match applyExcluded2 cfg excl (ofHL h) with
+    | .error r => r
+    | .ok e1 =>
+      match applyRegex cfg env regex e1 with
+      | .error r => r
+      | .ok e2 => .ok e2.hosts
+
+/-- the tail of `opt_args`.
+    FINDING F02-2BR: as found, exclusions and filters act on the FIRST-level names and the second
+    pair of brackets is expanded afterwards (`-w foo[1-2]-[0-1] -x foo1-0` contacts foo1-0). -/
 def finish (cfg : Cfg) (env : Env) (st : St) : Res :=
   match st.wcoll with
   | none => .nohosts
   | some e =>
+    if cfg.fix2Br then finish2 cfg env e st.excl st.regex else
     match applyExcluded cfg st.excl e with
     | .error r => r
     | .ok e1 =>
@@ -269,5 +311,32 @@ def cliFinal (cfg : Cfg) (env : Env) (evs : List Ev) : Res :=
   match argsProcess cfg env (evs.flatMap evWords) {} with
   | .error r => r
   | .ok st => finish cfg env st
+
+/-- `opt_args` with the `WCOLL` environment variable (`wcollEnv`: the file it names): it is read —
+    like `^file`, by `read_wcoll` — only when no option produced a working collective, and BEFORE the
+    exclusions and filters are applied.  (Correspondence only today: `exclusion_correct` speaks about
+    the target words of `-w`; the hosts of the file are C10's `file_hosts_spec`.) -/
+def cliFinalW (cfg : Cfg) (env : Env) (wcollEnv : Option Str) (evs : List Ev) : Res :=
+  match argsProcess cfg env (evs.flatMap evWords) {} with
+  | .error r => r
+  | .ok st =>
+    match st.wcoll, wcollEnv with
+    | none, some file =>
+      match env.files.lookup file with
+      | none => .fatal "wcoll file"
+      | some exprs =>
+        match readHl cfg exprs EL.new with
+        | .error r => r
+        | .ok hl => finish cfg env { st with wcoll := some hl }
+    | _, _ => finish cfg env st
+
+/-- without `WCOLL` this is `cliFinal` -/
+theorem cliFinalW_none (cfg : Cfg) (env : Env) (evs : List Ev) : cliFinalW cfg env none evs = cliFinal cfg env evs := by
+  unfold cliFinalW cliFinal
+  cases argsProcess cfg env (evs.flatMap evWords) {} with
+  | error r => rfl
+  | ok st =>
+    obtain ⟨w, x, r⟩ := st
+    cases w <;> rfl
 
 end PdshVerif.Opt.Exclude
